@@ -35,6 +35,8 @@ func init() {
 				Old: "\tp.orderSequenceByDependencies.ProcessFetchTree(fetches)\n\tp.createParallelNodes.ProcessFetchTree(fetches)\n", New: "\tp.createParallelNodes.ProcessFetchTree(fetches)\n\tp.orderSequenceByDependencies.ProcessFetchTree(fetches)\n"},
 			{Name: "fetch ids appended before dedupe", File: postprocessGo, Rule: "C08-R3", Key: "processFlatFetchTree",
 				Old: "\tp.dedupe.ProcessFetchTree(fetches)\n\t// Appending fetchIDs makes query content unique, thus it should happen after \"dedupe\".\n\tp.appendFetchID.ProcessFetchTree(fetches)\n", New: "\tp.appendFetchID.ProcessFetchTree(fetches)\n\tp.dedupe.ProcessFetchTree(fetches)\n"},
+			{Name: "merged multi fetch keeps only the first member's dependencies", File: "v2/pkg/engine/postprocess/create_multi_fetch.go", Rule: "C08-R4", Key: "merged-deps",
+				Old: "\t\t\tDependsOnFetchIDs: unionDependencies(members, ids),", New: "\t\t\tDependsOnFetchIDs: slices.Clone(members[0].DependsOnFetchIDs),"},
 			{Name: "subscription plans skip the nested-dependency stage set", File: postprocessGo, Rule: "C08-R3", Key: "SubscriptionResponsePlan",
 				Old: "\t\tp.appendTriggerToFetchTree(t.Response)\n\n\t\tp.fetchTreeProcessors.processFlatFetchTree(t.Response.Response)\n", New: "\t\tp.appendTriggerToFetchTree(t.Response)\n"},
 		},
@@ -316,6 +318,100 @@ func runC08(r *fw.Run) {
 		})
 		r.Expect("C08-R3", "plan-kind arms of Processor.Process", arms, 3)
 	}
+	mergedDependencies(r)
+}
+
+// mergedDependencies: the fetch that replaces a group of fetches depends on everything any
+// member depended on (C08-R4).
+func mergedDependencies(r *fw.Run) {
+	p := r.Prog
+	r.Rule("C08-R4", "a fetch created by merging several fetches carries the union of the members' dependencies: its DependsOnFetchIDs derive from the whole member list, not from one fixed member")
+	n := 0
+	for _, fi := range p.Funcs("postprocess") {
+		info := fi.Info()
+		fw.WalkAll(fi.Decl.Body, func(nd ast.Node) bool {
+			cl, ok := nd.(*ast.CompositeLit)
+			if !ok || !fw.TypeIs(info.TypeOf(cl), "resolve", "FetchDependencies") {
+				return true
+			}
+			// the group being merged: a local slice of *resolve.SingleFetch in this function
+			var group types.Object
+			fw.WalkAll(fi.Decl.Body, func(m ast.Node) bool {
+				if id, ok := m.(*ast.Ident); ok {
+					if v, ok := info.Defs[id].(*types.Var); ok {
+						if sl, ok := v.Type().Underlying().(*types.Slice); ok && fw.TypeIs(sl.Elem(), "resolve", "SingleFetch") && group == nil {
+							group = v
+						}
+					}
+				}
+				return true
+			})
+			if group == nil {
+				return true // not a merge site
+			}
+			for _, el := range cl.Elts {
+				kv, ok := el.(*ast.KeyValueExpr)
+				if !ok {
+					continue
+				}
+				if k, ok := kv.Key.(*ast.Ident); !ok || k.Name != "DependsOnFetchIDs" {
+					continue
+				}
+				n++
+				d := fw.NewPureDeriver(fi)
+				d.ElementOpaque = true
+				whole := d.Derives(kv.Value, func(e ast.Expr) bool {
+					id, ok := e.(*ast.Ident)
+					return ok && info.Uses[id] == group
+				})
+				okUnion := whole
+				// when the union is computed by a helper, the helper must read every member's dependencies
+				if c, isCall := ast.Unparen(kv.Value).(*ast.CallExpr); isCall && whole {
+					if hf := p.FuncOf(fw.Callee(info, c)); hf != nil {
+						okUnion = helperUnionsDependencies(hf)
+					}
+				}
+				r.Check(okUnion, "C08-R4", fi.Name()+"/merged-deps-are-a-union", p.Pos(kv.Pos()), "DependsOnFetchIDs of the merged fetch in "+fi.Name()+" derives from all members",
+					"the merged fetch inherits the dependencies of one fixed member only: the scheduler loses the edge to another member's prerequisite and issues the merged request before that prerequisite was merged")
+			}
+			return true
+		})
+	}
+	r.Expect("C08-R4", "merged FetchDependencies literals", n, 1)
+}
+
+// helperUnionsDependencies: the function ranges over a slice parameter of fetches and reads each
+// element's DependsOnFetchIDs into its result.
+func helperUnionsDependencies(fi *fw.FuncInfo) bool {
+	info := fi.Info()
+	ok := false
+	fw.WalkAll(fi.Decl.Body, func(n ast.Node) bool {
+		rs, isRange := n.(*ast.RangeStmt)
+		if !isRange {
+			return true
+		}
+		id, isID := ast.Unparen(rs.X).(*ast.Ident)
+		if !isID {
+			return true
+		}
+		v, isVar := info.Uses[id].(*types.Var)
+		if !isVar {
+			return true
+		}
+		if sl, isSl := v.Type().Underlying().(*types.Slice); !isSl || !fw.TypeIs(sl.Elem(), "resolve", "SingleFetch") {
+			return true
+		}
+		fw.WalkAll(rs.Body, func(m ast.Node) bool {
+			if sel, isSel := m.(*ast.SelectorExpr); isSel {
+				if f, _ := fw.Field(info, sel); f != nil && f.Name() == "DependsOnFetchIDs" {
+					ok = true
+				}
+			}
+			return true
+		})
+		return true
+	})
+	return ok
 }
 
 func contains(xs []string, s string) bool {
